@@ -365,7 +365,7 @@ def check_C14(ctx):
 def check_C16(ctx):
     import opening, collections
     ctx.trusted += M1_TRUST + ["what the indexer makes of a cut tape is Model/Prefix.v (tied by the C06 sweep); Initialize is Model/Fs.v fs_initialize (tied by the FS correspondence run)"]
-    coq_props(ctx, "C16", ["C16_never_rewrites", "C16_existing_index_untouched", "C16_rebuild_appends_nothing", "C16_appends_only_without_root", "C16_rebuildable_tape", "C16_absent_index", "C16_current_index", "C16_current_index_root_kept", "C16_rebuilt_index", "C16_continue_current", "C16_continue_rebuilt", "C16_reopened_shows_the_same_tree"])
+    coq_props(ctx, "C16", ["C16_never_rewrites", "C16_existing_index_untouched", "C16_rebuild_appends_nothing", "C16_appends_only_without_root", "C16_rebuildable_tape", "C16_absent_index", "C16_current_index", "C16_current_index_root_kept", "C16_rebuilt_index", "C16_continue_current", "C16_continue_rebuilt", "C16_reopened_shows_the_same_tree", "C16_rebuilt_instance_is_related", "C16_rebuilt_instance_step", "C16_related_instances_show_the_same_tree", "C16_rebuilt_instance_simulates_writer", "C16_written_after_opening_survive_rebuild", "C16_rebuilt_instance_step_any_config", "C16_rebuilt_instance_simulates_writer_any_config", "C16_written_after_opening_survive_rebuild_any_config"])
     # the FS correspondence run ties fs_initialize / reopen
     import streams
     data_fs = streams.fs_stream(ctx)
